@@ -20,7 +20,8 @@ Proof. exact (fun H ed_pk ed_sign => no_panic H ed_pk ed_sign classify_wellforme
 Print Assumptions C08_no_panic.
 
 (* a valid request sent afterwards is answered correctly: after ANY earlier traffic the next
-   call emits exactly the specified replies (fault injection off) *)
+   call emits exactly the specified replies (fault injection off), minus those whose send_to the
+   environment fails — those are counted as failed send attempts *)
 Theorem C08_still_serves :
   forall H ed_pk ed_sign, HashLen H -> PkLen ed_pk -> SigLen ed_sign ->
   forall cfg lt oi oc s q1 clk1 coins1 q2 clk2 coins2,
@@ -29,15 +30,15 @@ Theorem C08_still_serves :
     exists s1 out1 s2 lg,
       process_events H ed_sign s q1 clk1 coins1 = Ok (s1, out1)
       /\ process_events H ed_sign s1 q2 clk2 coins2 =
-           Ok (s2, mkso (spec_drain_sent H ed_pk ed_sign (S (length q2)) (batch_size cfg)
+           Ok (s2, mkso (spec_drain_sent_f H ed_pk ed_sign (send_fails cfg) (S (length q2)) (batch_size cfg)
                            (ltk_srv_value H ed_pk lt) lt oi oc clk2 0 q2)
-                        (spec_drain_stats H ed_pk ed_sign (S (length q2)) (batch_size cfg)
+                        (spec_drain_stats_f H ed_pk ed_sign (send_fails cfg) (S (length q2)) (batch_size cfg)
                            (ltk_srv_value H ed_pk lt) lt oi oc clk2 0 q2) lg).
 Proof.
   intros H ed_pk ed_sign HH HP HS cfg lt oi oc s q1 clk1 coins1 q2 clk2 coins2 Hinv Hf Hb1 Hb2.
-  destruct (drain_spec H ed_pk ed_sign classify_wellformed HH HP HS cfg lt oi oc s q1 clk1 coins1 Hinv Hf Hb1 Hb2)
+  destruct (drain_spec_f H ed_pk ed_sign classify_wellformed HH HP HS cfg lt oi oc s q1 clk1 coins1 Hinv Hf Hb1 Hb2)
     as [s1 [lg1 [E1 Hinv1]]].
-  destruct (drain_spec H ed_pk ed_sign classify_wellformed HH HP HS cfg lt oi oc s1 q2 clk2 coins2 Hinv1 Hf Hb1 Hb2)
+  destruct (drain_spec_f H ed_pk ed_sign classify_wellformed HH HP HS cfg lt oi oc s1 q2 clk2 coins2 Hinv1 Hf Hb1 Hb2)
     as [s2 [lg2 [E2 _]]].
   exists s1. eexists. exists s2, lg2. split; [exact E1|exact E2].
 Qed.
